@@ -70,7 +70,7 @@ void oracle_delivery(World& W)
         LoggerInfo const& L = W.loggers[s.logger];
         auto pos = std::find(L.sinks.begin(), L.sinks.end(), static_cast<int>(sk));
         if (pos == L.sinks.end()) continue;
-        if (s.kind == SKind::BtNoInit) continue; // skipped with a notification, never written
+        if (s.kind == SKind::BtNoInit || s.kind == SKind::NamedBtNoInit) continue; // skipped with a notification, never written
         if (!s.faulty && !sink_accepts(W, static_cast<int>(sk), s, stmt_message(s))) continue;
         bool optional = s.faulty;
         // a throwing write_log may remove the statement from that sink and the sinks after it in the logger's sink order
@@ -150,6 +150,17 @@ void oracle_delivery(World& W)
         if (e.logger != L.name) { fail(W, "statement " + id + " carries logger name " + e.logger + ", expected " + L.name); return; }
         if (e.level != s.level) { fail(W, "statement " + id + " is reported with level " + kLevelNames[e.level] + ", it was logged with " + kLevelNames[s.level]); return; }
         if (e.ts != s.ts) { fail(W, "statement " + id + " carries timestamp " + std::to_string(e.ts) + ", but its log call read " + std::to_string(s.ts)); return; }
+        if (!err_text)
+        {
+          std::string want_named;
+          if (s.kind == SKind::Named) want_named = "a=" + std::to_string(s.w) + ";b=" + std::to_string(s.seq) + ";c=" + make_pad(s.w, s.seq, s.padlen) + ";";
+          if (e.named != want_named)
+          {
+            fail(W, "statement " + id + " was handed to sink " + std::to_string(sk) + " with named args \"" + esc(e.named, 80) + "\", expected \"" +
+                      esc(want_named, 80) + "\" (named args of another statement leaked into it, or its own are wrong)");
+            return;
+          }
+        }
         if (is_prop("C16") && !err_text)
         {
           std::string expect = W.sinks[sk].has_override
